@@ -229,7 +229,10 @@ def r11_5(ctx):
         if term[0] in ("bin", "call", "un") and mir.has_field(term, "fragment_offset") and \
                 mir.has(term, lambda x: x[0] == "call" and x[1].endswith("::len") and mir.has_field(x, "incomplete_handshake")):
             cmp_blocks.append(sb)
-    r.need("offset == assembled-length comparisons", len(cmp_blocks), 1)
+    if not cmp_blocks:
+        # no in-order admission test at all: that is R11.4's violation, and this rule has nothing to anchor on
+        r.notes.append("no offset/length comparison found: see R11.4")
+        return r
     # entry of the fragmented branch: total_length != fragment_length
     starts = []
     cut = set()
